@@ -464,7 +464,8 @@ def refEvalExt (opt : Nat) (list : List (Nat × Str)) (es : List EC) : Bool :=
 
 def editListX (cur : List (Nat × Str)) : (Nat × List (Nat × Str)) → List (Nat × Str)
   | (0, l) => cur ++ l
-  | (1, l) => cur.filter (fun x => !(l.map (·.2)).contains x.2)
+  -- a member is a sub-type plus a pattern (after the fix: `rt:65000:1` does not remove `soo:65000:1`)
+  | (1, l) => cur.filter (fun x => !l.contains x)
   | (_, l) => l
 
 /-- `ParseExtCommunityRegexp(arg)`: subtype and pattern source; `none` = error -/
